@@ -169,7 +169,7 @@ def shard_i(prop: str, tier: str, seed: int, family: str, which: str) -> dict[st
 
         sc = mod.pair_scenarios()[which]
         prep = mod.prepare_pair(sc)
-        mk, progs, nthreads = mod.make_pair_world(prep, sc), (lambda w_: [handle_one() for _ in range(sc["workers"])]), sc["workers"]
+        mk, progs, nthreads = mod.make_pair_world(prep, sc), (lambda w_: mod.pair_programs(sc)), sc["workers"]
     w, s = run_schedule(mk, progs, {})
     total = max(5, s.yields)
     for i in range(12 if tier == "quick" else 200):
@@ -286,7 +286,7 @@ def _replay_i(case: dict[str, Any]) -> list[tuple[Any, ...]]:
         from checks import c07
 
         sc = c07.pair_scenarios()[which]
-        mk, progs = c07.make_pair_world(c07.prepare_pair(sc), sc), (lambda w_: [handle_one() for _ in range(sc["workers"])])
+        mk, progs = c07.make_pair_world(c07.prepare_pair(sc), sc), (lambda w_: c07.pair_programs(sc))
     else:
         import importlib
 
